@@ -7,7 +7,7 @@ p=$(realpath "$1"); shift
 props="$*"; [ -n "$props" ] || props=$(seq -f 'C%02g' 1 20)
 V=${VERIF_DIR:-$(cd "$(dirname "$0")/.." && pwd)}
 sc=$(mktemp -d /tmp/gunyu_all.XXXXXX); trap 'rm -rf "$sc"' EXIT
-mkdir -p "$sc/repo" "$sc/verif"; rsync -a --exclude .git /repo/ "$sc/repo/"; cp $V/known_findings.json "$sc/verif/"
+mkdir -p "$sc/repo" "$sc/verif"; rsync -a --exclude .git "${VERIF_REPO:-/repo}/" "$sc/repo/"; cp $V/known_findings.json "$sc/verif/"
 (cd "$sc/repo" && git apply "$p") || { echo "patch does not apply"; exit 2; }
 (cd "$sc/repo" && GOFLAGS=-mod=mod GOPROXY=off GOSUMDB=off GOTOOLCHAIN=local go build ./... ) || { echo "DOES NOT BUILD"; exit 2; }
 for id in $props; do
